@@ -548,8 +548,11 @@ def run(case):
     from fiddle._src import tagging as _tagging
     swap = {'n0': ('z', 'n0b'), 'n0b': ('w', 'n0')}
     done = 0
+    all_uids = [uid_of(x) for x in mk_m.nodes]
     for bm, bi in zip(mk_m.nodes, mk_i.nodes):
       name = getattr(bi.__fn_or_cls__, '__name__', None)
+      if all_uids.count(uid_of(bm)) > 1:
+        continue     # (equal-but-distinct twins carry one uid: they stay equal)
       if name in swap and swap[name][0] in bi.__arguments__ and done < 3:
         arg, new_fn = swap[name]
         _tagging.add_tag(bi, arg, stubmod.TAGS['T0'])
